@@ -893,7 +893,7 @@ func c07r8(c *Ctx, id string) {
 	}
 	c.Check(ok, id, "reset-unconditional", rs.Pos(), fmt.Sprintf("every non-panicking path installs a fresh table, fills it and re-arms the counter %v", seqs), fmt.Sprintf("reset keeps (part of) the previous generation's reports on some path: %v", seqs))
 	// entries are fresh all-zero records
-	rec := w.NamedType("couchbase", "vbUUIDAndSeqNo")
+	rec := replicaStateType(w) // the record type of the report table, by role (element type of the table's slices)
 	nRec, badRec := 0, 0
 	if rec != nil {
 		allInstrs(rs, func(in ssa.Instruction) {
